@@ -211,7 +211,7 @@ func main() {
 		return
 	}
 	r := report.New("C02", tier, "model_checking")
-	r.Rule = "E1: (a) every ring of 3 and 4 (thorough: 5) vertices over {0..3}^2 (thorough 5-rings over {0..2}^2), repeated vertices and self-intersections included, closed and unclosed spelling, x all 81 points of the half-integer grid over [-0.5,3.5]^2; (b) every two-ring Polygon and two-member MultiPolygon over the 504 triangles of {0..2}^2 x 49 half-integer points; (c) every box over {0..3}^2 as *Bounds; (d) the 3-/4-vertex rings through 6 affine maps with non-representable coefficients at points with an exactly verified margin; (e) MultiPoint/LineString/MultiLineString/Polygon receivers with all vertex lists of length <= 2 (3 on a sub-grid) against 6 target shapes. Oracle: integer on-segment test and half-open crossing parity. Non-trivial = queries whose reference answer is OnEdge or whose ray passes through a vertex."
+	r.Rule = "E1: (a) every ring of 3 and 4 (thorough: 5) vertices over {0..3}^2 (thorough 5-rings over {0..2}^2), repeated vertices and self-intersections included, closed and unclosed spelling, x all 81 points of the half-integer grid over [-0.5,3.5]^2; (b) every two-ring Polygon and two-member MultiPolygon over the 504 triangles of {0..2}^2 x 49 half-integer points; (b') the same family on one polygon value per worker, rings cut from one flat buffer and edited in place between cases (answers depend on current coordinates only; caller's buffer not written); (c) every box over {0..3}^2 as *Bounds; (d) the 3-/4-vertex rings through 6 affine maps with non-representable coefficients at points with an exactly verified margin; (e) MultiPoint/LineString/MultiLineString/Polygon receivers with all vertex lists of length <= 2 (3 on a sub-grid) against 6 target shapes. Oracle: integer on-segment test and half-open crossing parity. Non-trivial = queries whose reference answer is OnEdge or whose ray passes through a vertex."
 	var n, nontrivial, skipped int64
 	viol := func(fam string, c Case, scale int64, sym, det string) {
 		r.Violation(fmt.Sprintf("%s|%s|%s", fam, c.AsType, sym), map[string]interface{}{"case": c, "scale": scale, "observed": det})
@@ -310,6 +310,66 @@ func main() {
 			}
 		}
 	})
+	// (b') the same two-ring family evaluated on ONE polygon value per worker
+	// whose rings are cut from one flat vertex buffer (spare capacity reaching
+	// into the next ring) and rewritten in place from case to case: an answer
+	// must depend on the current coordinates only (no state keyed by slice
+	// identity), and the call must not write into the caller's buffer.
+	reused := func(i int) {
+		sentinel := geom.Point{X: 1234.5, Y: -4321.25}
+		buf := make([]geom.Point, 7)
+		buf[6] = sentinel
+		pv := geom.Polygon{buf[0:3], buf[3:6]}
+		mv := geom.MultiPolygon{{buf[0:3]}, {buf[3:6]}}
+		want := make([]geom.Point, 6)
+		// (type outermost: consecutive calls then see the same value edited in place)
+		for _, as := range []string{"Polygon", "MultiPolygon"} {
+			for j := range tris {
+				for k, v := range append(append([]P2{}, tris[i]...), tris[j]...) {
+					want[k] = geom.Point{X: float64(v.X) / 2, Y: float64(v.Y) / 2}
+				}
+				polys := [][][]P2{{tris[i], tris[j]}}
+				var pg geom.Polygonal = pv
+				if as == "MultiPolygon" {
+					polys = [][][]P2{{tris[i]}, {tris[j]}}
+					pg = mv
+				}
+				copy(buf, want) // in-place edit of the value queried before
+				for _, p := range q2 {
+					c := Case{Polys: polys, AsType: as, Q: p}
+					atomic.AddInt64(&n, 1)
+					w := classify(polys, p)
+					q := geom.Point{X: float64(p.X) / 2, Y: float64(p.Y) / 2}
+					var got geom.WithinStatus
+					if pn := try(func() { got = q.Within(pg) }); pn != "" {
+						viol("reused-flat-buffer", c, 2, "panic", pn)
+						continue
+					}
+					g := map[geom.WithinStatus]int{geom.Outside: 0, geom.Inside: 1, geom.OnEdge: 2}[got]
+					if g != w {
+						viol("reused-flat-buffer", c, 2, fmt.Sprintf("got-%s-want-%s", names[g], names[w]), fmt.Sprintf("polygon value reused and edited in place, rings buf[0:3], buf[3:6] of one buffer: %v.Within(%v) = %s, want %s", q, pg, names[g], names[w]))
+					}
+					for k := range want {
+						if buf[k] != want[k] {
+							viol("reused-flat-buffer", c, 2, "caller-buffer-written", fmt.Sprintf("vertex %d of the buffer changed from %v to %v", k, want[k], buf[k]))
+							copy(buf, want)
+						}
+					}
+					if buf[6] != sentinel {
+						viol("reused-flat-buffer", c, 2, "caller-buffer-written", fmt.Sprintf("the element behind the last ring changed to %v", buf[6]))
+						buf[6] = sentinel
+					}
+				}
+			}
+		}
+	}
+	// first in one goroutine with nothing else running (package-level state,
+	// e.g. a cache of the last polygon, then sees exactly this call history),
+	// then the whole family in parallel
+	for i := 0; i < len(tris); i += 37 {
+		reused(i)
+	}
+	enum.Parallel(len(tris), r.Expired, reused)
 	// three members incl. a ring with < 3 vertices and an empty polygon
 	enum.Parallel(len(tris), r.Expired, func(i int) {
 		for j := 0; j < len(tris); j += 7 {
